@@ -1,4 +1,5 @@
 import Ruint.Lemmas.BitsRev
+import Ruint.Lemmas.GenBits
 import Mathlib.Data.Nat.Size
 
 /-!
@@ -290,5 +291,55 @@ theorem size_eq_natSize (x : ℕ) : size x = Nat.size x := by
       intro h0; rw [h0] at b1; simp at b1; exact hx b1
     have h2 : size x - 1 < Nat.size x := Nat.lt_size.mpr b2
     omega
+
+/-! ## Whole-method tie to the source (G)
+
+`Ruint.Gen.uint_bit`, `uint_set_bit`, `uint_not`, `uint_leading_zeros`, `uint_leading_ones`, `uint_count_ones`,
+`uint_count_zeros`, `uint_bit_len`, `uint_byte_len` are regenerated from `src/bits.rs` by `tools/rs2lean.py` on every
+run — the complete methods (range guards, `(limbs, bits)` split, the `while` loops, the downward scan of
+`leading_zeros` with its early `return` and the `skipped + top - fixed` arithmetic in wrapping `usize`, `masked()`).
+They are proved equal to the model for every width (`LIMBS < 2^57`, i.e. widths below `2^63` bits, so that the `usize`
+bit counts of the source cannot wrap) and all canonical operands; the driver executes the generated methods. The
+`u64` intrinsics `leading_zeros` / `count_ones` are the fixed prelude functions `Rs.clz` / `Rs.popcnt`, proved equal to
+the model's word primitives. -/
+
+theorem gen_bit_eq (bits : ℕ) (a : List ℕ) (i : ℕ) :
+    Ruint.Gen.uint_bit bits (nlimbs bits) a i = bit bits a i := Ruint.GenBits.bit_eq bits _ a i
+
+theorem gen_set_bit_eq (bits : ℕ) (a : List ℕ) (i : ℕ) (v : Bool) :
+    Ruint.Gen.uint_set_bit bits (nlimbs bits) a i v = setBit bits a i v := Ruint.GenBits.set_bit_eq bits _ a i v
+
+theorem gen_not_eq (bits : ℕ) (hN : nlimbs bits < 2 ^ 64) (a : List ℕ) (ha : Canon bits a) (f : ℕ) (hf : nlimbs bits < f) :
+    Ruint.Gen.uint_not f bits (nlimbs bits) a = Bits.not bits a := Ruint.GenBits.not_eq bits hN a ha.1 f hf
+
+theorem gen_leading_zeros_eq (bits : ℕ) (hN : nlimbs bits < 2 ^ 57) (a : List ℕ) (ha : Canon bits a) (f : ℕ)
+    (hf : nlimbs bits < f) :
+    Ruint.Gen.uint_leading_zeros f bits (nlimbs bits) a = leadingZeros bits a :=
+  Ruint.GenBits.leading_zeros_eq bits hN a ha f hf
+
+theorem gen_leading_ones_eq (bits : ℕ) (hN : nlimbs bits < 2 ^ 57) (a : List ℕ) (ha : Canon bits a) (f : ℕ)
+    (hf : nlimbs bits < f) :
+    Ruint.Gen.uint_leading_ones f bits (nlimbs bits) a = leadingOnes bits a :=
+  Ruint.GenBits.leading_ones_eq bits hN a ha f hf
+
+theorem gen_count_ones_eq (bits : ℕ) (hN : nlimbs bits < 2 ^ 57) (a : List ℕ) (ha : Canon bits a) (f : ℕ)
+    (hf : nlimbs bits < f) :
+    Ruint.Gen.uint_count_ones f bits (nlimbs bits) a = countOnes a :=
+  Ruint.GenBits.count_ones_eq bits hN a ha.1 ha.2.1 f hf
+
+theorem gen_count_zeros_eq (bits : ℕ) (hN : nlimbs bits < 2 ^ 57) (a : List ℕ) (ha : Canon bits a) (f : ℕ)
+    (hf : nlimbs bits < f) :
+    Ruint.Gen.uint_count_zeros f bits (nlimbs bits) a = countZeros bits a :=
+  Ruint.GenBits.count_zeros_eq bits hN a ha f hf
+
+theorem gen_bit_len_eq (bits : ℕ) (hN : nlimbs bits < 2 ^ 57) (a : List ℕ) (ha : Canon bits a) (f : ℕ)
+    (hf : nlimbs bits < f) :
+    Ruint.Gen.uint_bit_len f bits (nlimbs bits) a = bitLen bits a :=
+  Ruint.GenBits.bit_len_eq bits hN a ha f hf
+
+theorem gen_byte_len_eq (bits : ℕ) (hN : nlimbs bits < 2 ^ 57) (a : List ℕ) (ha : Canon bits a) (f : ℕ)
+    (hf : nlimbs bits < f) :
+    Ruint.Gen.uint_byte_len f bits (nlimbs bits) a = byteLen bits a :=
+  Ruint.GenBits.byte_len_eq bits hN a ha f hf
 
 end Ruint.C06
